@@ -2321,7 +2321,13 @@ class BSP:
         # Some extra ambient light data.
         has_ambient = not is_vitamin and self.version <= 19
 
-        for leaf_data, water_dist in zip(leaf_fmt.iter_unpack(data), dist_to_water):
+        # Use zip longest, older maps have no LEAFMINDISTTOWATER lump. Do not drop the leafs then.
+        for leaf_data, water_dist in itertools.zip_longest(leaf_fmt.iter_unpack(data), dist_to_water):
+            if leaf_data is None:
+                # More distances than leafs, ignore.
+                break
+            if water_dist is None:
+                water_dist = 65535  # The default of VisLeaf.min_water_dist.
             if is_vitamin:
                 # VitaminSource moves the flags into its own block.
                 (
